@@ -82,7 +82,7 @@ def grids(tier):
 
 
 def functions(tier):
-    f = ["G:lsn:+1", "G:cdn:-1", "saddle", "offgauss", "cosmode"]
+    f = ["G:lsn:+1", "G:cdn:-1", "saddle", "offgauss", "tallgauss", "cosmode"]
     if tier == "thorough":
         f += ["G:usn:-1", "G:udn:+1", "G:ldn2:-1", "G:lsn:-1", "G:cdn:+1"]
     return f
